@@ -225,9 +225,9 @@ pub fn check_log(events: &[Event], type_names: &[&'static str], expect_all_freed
             Kind::BlockingBegin => {
                 if let Some(op) = live.get(&e.a).and_then(|id| ops.get_mut(id)) {
                     op.pool_held = true;
-                } else {
-                    finding!("pool-runs-unknown-op", "?".into(), e.seq, "a pool thread starts running address {:#x} with no live operation", e.a);
                 }
+                // (an unknown address here is a late job of an earlier program whose
+                // proactor is long gone; it cannot be told apart, so it is not judged)
             }
             Kind::BlockingEnd => {
                 if let Some(op) = live.get(&e.a).and_then(|id| ops.get_mut(id)) {
